@@ -709,6 +709,18 @@ def run_session(prop: str, spec: dict, rng: random.Random, nops: int, res: Resul
                 op["keys"] = [k for k in op["keys"] if k != F.K_TID] + [F.K_TID]
         if prop in ("C07", "C09") and queue is None and op["op"] == "addnode" and case.cfg == "seg" and op.get("pixels") is None:
             op.pop("pos", None)  # a node without pixels is outside C07's consistent states (caller's choice)
+        if prop == "C11" and queue is None and op["op"] == "paint" and op.get("value") and rng.random() < 0.15:
+            # a stroke with the label of a node that lives in ANOTHER frame. The action accepts it
+            # (keeping labels in their frame is the caller's business) and the session ends there; a
+            # version that refuses it must refuse it before touching anything
+            fr_ = case.frame
+            t_here = op["pixels"][0] // fr_ if op["pixels"] else 0
+            others = [n for n in tracks.graph.nodes if tracks.graph.nodes[n]["time"] != t_here]
+            if others:
+                op["value"] = int(rng.choice(others))
+                op["pixels"] = [p for p in op["pixels"] if int(tracks.segmentation.reshape(-1)[p]) != op["value"]]
+                op.pop("groups", None)
+                op["_foreign_label"] = 1
         if tid_off or (op["op"] == "disable" and F.K_TID in op.get("keys", [])):
             op["_nomodel"] = 1
         step += 1
@@ -766,7 +778,11 @@ def run_session(prop: str, spec: dict, rng: random.Random, nops: int, res: Resul
             break
         if stop:
             break
+        if op.get("_foreign_label") and accepted:
+            res.count("session-shape:ended-by-foreign-label-stroke")
+            break
 
+        moved = False   # did this undo/redo have a state to step to (by the harness's own timeline)?
         # ---- timeline bookkeeping (C02 reference; also used to know what undo/redo should do)
         if kind in EDIT_OPS and accepted:
             back = timeline[cursor:len(timeline) - 1][::-1]
@@ -774,12 +790,14 @@ def run_session(prop: str, spec: dict, rng: random.Random, nops: int, res: Resul
             cursor = len(timeline) - 1
         elif kind == "undo":
             exp = cursor > 0
+            moved = exp
             if exp:
                 cursor -= 1
             if prop == "C02" and (out == "true") != exp:
                 fail("undo|return-value", f"undo() returned {out} with cursor {cursor} of {len(timeline)}")
         elif kind == "redo":
             exp = cursor + 1 < len(timeline)
+            moved = exp
             if exp:
                 cursor += 1
             if prop == "C02" and (out == "true") != exp:
@@ -952,7 +970,11 @@ def run_session(prop: str, spec: dict, rng: random.Random, nops: int, res: Resul
                 fail(f"{kind}|{out}|refresh-emitted", f"refused {op} ({out}) emitted a refresh")
         if prop == "C20":
             delta = ses.refresh - before_refresh
-            exp = 1 if (kind in EDIT_OPS | {"undo", "redo"} and accepted) else 0
+            # undo/redo: "successful" = there was a state to step to, judged by the harness's own
+            # timeline (not by the call's return value, which the code under test produces)
+            exp = 1 if ((kind in EDIT_OPS and accepted) or (kind in ("undo", "redo") and moved and not tid_off)) else 0
+            if kind in ("undo", "redo") and tid_off:
+                exp = delta
             if delta != exp:
                 fail(f"{kind}|{'accepted' if accepted else 'refused'}|refresh-count", f"{op} ({out}) emitted {delta} refreshes, expected {exp}")
             if accepted and kind == "addnode" and ses.payload != op["id"]:
@@ -1316,7 +1338,7 @@ def controller_sessions(prop: str, rng: random.Random, n: int, res: Result) -> l
                         t.segmentation[idx] = op["value"]
                         upd = [(case.idx_tuple(px), ov) for px, ov in op["groups"]]
                         try:
-                            ctl.update_segmentations(op["value"], upd, int(idx[0][0]), op["tid"], force=bool(op["force"]))
+                            ctl.update_segmentations(op["value"], upd, int(idx[0][0]) if len(idx[0]) else 0, op["tid"], force=bool(op["force"]))
                         except Exception:
                             t.segmentation[idx] = old
                             raise
@@ -1393,6 +1415,9 @@ def controller_sessions(prop: str, rng: random.Random, n: int, res: Result) -> l
                 fail(f"{kind}|unexpected-exception", f"{op} raised {out}")
                 break
             refused = kind not in ("undo", "redo") and not changed_hist
+            if kind in ("undo", "redo") and out.startswith("raised"):
+                fail(f"{kind}|raised", f"{kind}() {out} after {[o.get('op') for o in hist]}")
+                break
             if kind in ("undo", "redo"):
                 if prop in ("C02", "C01"):
                     exp = (cursor > 0) if kind == "undo" else (cursor + 1 < len(timeline))
@@ -1433,13 +1458,17 @@ def controller_sessions(prop: str, rng: random.Random, n: int, res: Result) -> l
                     cursor = len(timeline) - 1
                     if prop == "C01":
                         after = observe(t)
-                        u_ = ctl.undo()
-                        if not u_ or observe(t) != before_obs:
-                            fail(f"{kind}|undo-does-not-restore", obs_diff(before_obs, observe(t)))
-                            stop = True
-                        r_ = ctl.redo()
-                        if not stop and (not r_ or observe(t) != after):
-                            fail(f"{kind}|redo-does-not-reapply", obs_diff(after, observe(t)))
+                        try:
+                            u_ = ctl.undo()
+                            if not u_ or observe(t) != before_obs:
+                                fail(f"{kind}|undo-does-not-restore", obs_diff(before_obs, observe(t)))
+                                stop = True
+                            r_ = ctl.redo() if not stop else True
+                            if not stop and (not r_ or observe(t) != after):
+                                fail(f"{kind}|redo-does-not-reapply", obs_diff(after, observe(t)))
+                                stop = True
+                        except Exception as e:  # noqa: BLE001  undo()/redo() never raise on accepted edits
+                            fail(f"{kind}|undo-raised", f"undo/redo of {op} raised {type(e).__name__}: {str(e)[:120]}")
                             stop = True
                 elif prop in ("C02", "C01"):
                     break  # several steps without the intermediate states: end the timeline here
@@ -2154,21 +2183,32 @@ def worker(args) -> Result:
         if len(batch_lines) > 4000:
             flush()
     flush()
+
+    def guarded_family(name: str, fn, *a):
+        """an exception that escapes a sub-family comes from the code under test in a place the
+        sub-family does not expect one: reported (with the traceback) rather than crashing the check"""
+        try:
+            for f_ in fn(*a):
+                res.failures.append(f_)
+        except Hang:
+            res.failures.append(Failure("hang", prop, f"{prop}|{name}|hang", f"a call inside {name} did not return", {}))
+        except Exception as e:  # noqa: BLE001
+            import traceback as _tb
+            res.failures.append(Failure("oracle", prop, f"{prop}|{name}|unexpected-exception|{type(e).__name__}",
+                                        f"{name}: {type(e).__name__}: {str(e)[:200]}",
+                                        {"traceback": _tb.format_exc()[-1500:]}))
+
     if prop in ("C04", "C05") and fixed is None:
         for f in import_construction_cases(prop, random.Random(seed ^ 0xC0DE), max(10, nsessions // 2), res):
             res.failures.append(f)
     if prop in ("C08", "C09") and fixed is None:
-        for f in plain_tracks_cases(prop, random.Random(seed ^ 0x91A1), max(10, nsessions // 3), res):
-            res.failures.append(f)
+        guarded_family("plain-tracks", plain_tracks_cases, prop, random.Random(seed ^ 0x91A1), max(10, nsessions // 3), res)
     if prop in ("C01", "C02", "C03", "C04", "C05", "C06", "C07", "C08", "C09", "C11", "C20") and fixed is None:
-        for f in controller_sessions(prop, random.Random(seed ^ 0xC7A1), max(6, nsessions // 8), res):
-            res.failures.append(f)
+        guarded_family("controller", controller_sessions, prop, random.Random(seed ^ 0xC7A1), max(6, nsessions // 8), res)
     if prop == "C20" and fixed is None:
-        for f in reentrant_refresh_cases(prop, random.Random(seed ^ 0x2E), max(10, nsessions // 4), res):
-            res.failures.append(f)
+        guarded_family("listeners", reentrant_refresh_cases, prop, random.Random(seed ^ 0x2E), max(10, nsessions // 4), res)
     if prop == "C10" and fixed is None:
-        for f in prim_frozen_cases(prop, random.Random(seed ^ 0xF0E), max(20, nsessions // 2), res):
-            res.failures.append(f)
+        guarded_family("prim-frozen", prim_frozen_cases, prop, random.Random(seed ^ 0xF0E), max(20, nsessions // 2), res)
     if prop == "C01" and fixed is None:
         for f in prim_cases(prop, random.Random(seed ^ 0x5EED), max(20, nsessions), res):
             res.failures.append(f)
